@@ -43,6 +43,7 @@ def cases(tier):
         out.append(case(n, s))
     for i, lit in enumerate(STRS):
         out.append(case(f'string-utf8/{i}', SU, lit=lit))
+        out.append(case(f'string-unlimited/{i}', {'k': 'string', 'unlimited': True, 'utf8': True}, lit=lit))
         if lit.isascii():
             out.append(case(f'string/{i}', S, lit=lit))
     for i, lit in enumerate(BLOBS):
